@@ -26,7 +26,8 @@
 
    THE CODE IS MODELLED AS IT IS.  In particular gate2zx decomposes CRz(p),
    CRx(p), CU1(p) with spider phases p where p/2 is required (finding F13): see
-   [crz_exp], [crx_exp], [cu1_exp] below and ZXLemmas.v.
+   [crz_exp], [crx_exp], [cu1_exp] below and ZXLemmas.v.  The named switch
+   [defect_F13] selects between this behaviour and the proposed repair.
 
    Definitions only; proofs are in ZXLemmas.v. *)
 From Coq Require Import List Bool Arith ZArith.
@@ -41,15 +42,23 @@ Record PhaseAlg (SR : StarRing) : Type := mkPhaseAlg {
   pzero : ph_car;                                  (* 0 *)
   phalf : ph_car;                                  (* .5 *)
   pneg : ph_car -> ph_car;                         (* -p *)
+  phalve : ph_car -> ph_car;                       (* p / 2 (no law: see f13_free_at) *)
   pE : ph_car -> SR;                               (* exp(i*pi*p) *)
   pE_phase : forall p, is_phase (pE p);
   pE_zero : pE pzero = r1;
   pE_half : pE phalf = ri;
   pE_neg : forall p, pE (pneg p) = rconj (pE p)
 }.
-Arguments pzero {_ _}. Arguments phalf {_ _}. Arguments pneg {_ _}. Arguments pE {_ _}.
+Arguments pzero {_ _}. Arguments phalf {_ _}. Arguments pneg {_ _}. Arguments phalve {_ _}. Arguments pE {_ _}.
 
 Inductive skind := KZ | KX | KY.                   (* the classes Z, X, Y of zx.py *)
+
+(* THE F13 SWITCH (DESIGN section 5).  true: gate2zx as it is in the pinned code
+   (CRz / CRx / CU1 decomposed with `box.phase`).  false: the repaired gate2zx
+   proposed in notes/C16.md (`box.phase / 2`, and the corrected CRx diagram).
+   Every lemma of ZXLemmas.v is proved for both values, so that flipping the
+   switch when the repair lands upstream needs no proof change. *)
+Definition defect_F13 : bool := false.
 
 (* what raises out of circuit2zx *)
 Inductive zerr := ZKeyError | ZNotImplementedError | ZAxiomError.
@@ -185,6 +194,18 @@ Section ZX.
     EThen (ETensor (spider KZ 1 2 q) (spider KZ 1 2 q))
           (ETensor (ETensor (EId 1) (EThen (spider KX 2 1 pzero) (spider KZ 1 0 (pneg q)))) (EId 1)).
 
+  (* the repaired CRx (switch off), q = box.phase / 2:
+       Z(1, 2) @ X(1, 2, box.phase / 2)
+       >> Id(1) @ (H @ Id(1) >> Z(2, 1) >> X(1, 0, -box.phase / 2)) @ Id(1)
+     the control is copied by a Z spider and a Hadamard sits on the leg towards the
+     phase gadget (the coded one has X spiders on the control as well) *)
+  Definition crx_fixed_exp (q : PA) : zexp :=
+    EThen (ETensor (spider KZ 1 2 pzero) (spider KX 1 2 q))
+          (ETensor (ETensor (EId 1)
+                      (EThen (EThen (ETensor (EBox ZHad) (EId 1)) (spider KZ 2 1 pzero))
+                             (spider KX 1 0 (pneg q))))
+                   (EId 1)).
+
   (*  quantum.Y: Z(1, 1, .5) >> X(1, 1, .5) @ scalar(1j)   (`@` binds tighter than `>>`)  *)
   Definition y_exp : zexp :=
     EThen (spider KZ 1 1 phalf) (ETensor (spider KX 1 1 phalf) (escalar (SImag false))).
@@ -198,16 +219,19 @@ Section ZX.
 
   (* def gate2zx(box), in the order of its tests; the last line is the lookup
      in the dict standard_gates (KeyError for anything else, e.g. SWAP or a
-     daggered Y, which the functor never hands to gate2zx) *)
-  Definition gate2zx (g : qgate) : zres zexp :=
+     daggered Y, which the functor never hands to gate2zx).  [defect] is the F13
+     switch: with it off, the spider phases of the controlled rotations are
+     box.phase / 2 and -box.phase / 2 (= -(box.phase / 2) exactly, in binary
+     floating point) *)
+  Definition gate2zx_at (defect : bool) (g : qgate) : zres zexp :=
     match g with
     | QKet bs => ZOk (ketbra_exp false bs)
     | QBra bs => ZOk (ketbra_exp true bs)
     | QRz p => ZOk (spider KZ 1 1 p)
     | QRx p => ZOk (spider KX 1 1 p)
-    | QCRz p => ZOk (crz_exp p)
-    | QCRx p => ZOk (crx_exp p)
-    | QCU1 p => ZOk (cu1_exp p)
+    | QCRz p => ZOk (if defect then crz_exp p else crz_exp (phalve p))
+    | QCRx p => ZOk (if defect then crx_exp p else crx_fixed_exp (phalve p))
+    | QCU1 p => ZOk (if defect then cu1_exp p else cu1_exp (phalve p))
     | QMixedScalar => ZErr ZNotImplementedError
     | QScalar z => ZOk (escalar (SData z))                   (* scalar(box.data) *)
     | QSqrt k => ZOk (escalar (SPow2h (2 * k)%Z))              (* box.data = 2 ** k, not its root *)
@@ -219,18 +243,22 @@ Section ZX.
     | QCX => ZOk cx_exp
     | QY true | QSwap | QOther _ _ => ZErr ZKeyError
     end.
+  Definition gate2zx : qgate -> zres zexp := gate2zx_at defect_F13.
 
   (* ------------------------------------------------------------ circuit2zx *)
   (* Functor.__call__ on one box of the circuit: monoidal.Functor sends a Swap to
      ar_factory.swap(PRO(1), PRO(1)) = SWAP; cat.Functor sends a box with
      is_dagger to self.ar[box.dagger()].dagger(); otherwise self.ar[box] *)
-  Definition c2z_box (g : qgate) : zres zxd :=
+  Definition c2z_box_at (defect : bool) (g : qgate) : zres zxd :=
     match g with
     | QSwap => ZOk (zbox1 ZSwap)
     | QY true =>
-        match gate2zx (QY false) with ZOk e => ZOk (zdagger (edenote e)) | ZErr x => ZErr x end
-    | _ => match gate2zx g with ZOk e => ZOk (edenote e) | ZErr x => ZErr x end
+        match gate2zx_at defect (QY false) with
+        | ZOk e => ZOk (zdagger (edenote e)) | ZErr x => ZErr x
+        end
+    | _ => match gate2zx_at defect g with ZOk e => ZOk (edenote e) | ZErr x => ZErr x end
     end.
+  Definition c2z_box : qgate -> zres zxd := c2z_box_at defect_F13.
 
   (* monoidal.Functor.__call__ on a diagram:
        scan, result = diagram.dom, id(F(dom))
@@ -238,23 +266,24 @@ Section ZX.
            result = result >> id(F(scan[:off])) @ F(box) @ id(F(scan[off + len(box.dom):]))
      with F(qubit) = PRO(1), so that F(scan[:off]) has off wires.  The `>>` always
      composes (gate2zx_arity in ZXLemmas.v). *)
-  Fixpoint c2z_loop (w : nat) (result : zxd) (ls : list (nat * qgate)) : zres zxd :=
+  Fixpoint c2z_loop (defect : bool) (w : nat) (result : zxd) (ls : list (nat * qgate)) : zres zxd :=
     match ls with
     | [] => ZOk result
     | (off, g) :: ls' =>
-        match c2z_box g with
+        match c2z_box_at defect g with
         | ZErr x => ZErr x
         | ZOk fg =>
             let id_l := zid off in
             let id_r := zid (w - (off + qdom g)) in
-            c2z_loop (w - qdom g + qcod g) (zthen result (ztensor (ztensor id_l fg) id_r)) ls'
+            c2z_loop defect (w - qdom g + qcod g) (zthen result (ztensor (ztensor id_l fg) id_r)) ls'
         end
     end.
 
   (* circuit2zx(Circuit(qubit ** n, cod, boxes, offsets)): the constructor
      refuses a box that does not fit (AxiomError) before the functor runs *)
-  Definition circuit2zx (c : qcirc) : zres zxd :=
-    if qwf c then c2z_loop (gd_dom c) (zid (gd_dom c)) (gd_layers c) else ZErr ZAxiomError.
+  Definition circuit2zx_at (defect : bool) (c : qcirc) : zres zxd :=
+    if qwf c then c2z_loop defect (gd_dom c) (zid (gd_dom c)) (gd_layers c) else ZErr ZAxiomError.
+  Definition circuit2zx : qcirc -> zres zxd := circuit2zx_at defect_F13.
 
   (* ------------------------------------------------------------ the circuit as Gates.v sees it *)
   Definition qgate_box (g : qgate) : box SR :=
@@ -378,15 +407,22 @@ Section ZX.
   Definition circ_lam (ls : list (nat * qgate)) : SR :=
     fold_right (fun l acc => gate_lam (snd l) * acc) 1 ls.
 
-  (* F13: where the decompositions of the controlled rotations are right as coded:
-     CRz(p), CRx(p) only when exp(i*pi*p) = 1 (p an even integer), CU1(p) only
-     when exp(2*pi*i*p) = 1 (p an integer) *)
-  Definition f13_free (g : qgate) : Prop :=
+  (* F13: where the decompositions of the controlled rotations are right.
+     As coded (switch on): CRz(p), CRx(p) only when exp(i*pi*p) = 1 (p an even
+     integer), CU1(p) only when exp(2*pi*i*p) = 1 (p an integer).
+     Repaired (switch off): whenever [phalve p] really is half of p, i.e.
+     exp(2*pi*i*(p/2)) = exp(i*pi*p): always for real phases; on the grid k/16
+     for even k (the check generates the phases of controlled rotations on
+     multiples of 1/8 turn for this reason). *)
+  Definition f13_free_at (defect : bool) (g : qgate) : Prop :=
     match g with
-    | QCRz p | QCRx p => pE p = 1
-    | QCU1 p => pE p * pE p = 1
+    | QCRz p | QCRx p =>
+        if defect then pE p = 1 else pE (phalve p) * pE (phalve p) = pE p
+    | QCU1 p =>
+        if defect then pE p * pE p = 1 else pE (phalve p) * pE (phalve p) = pE p
     | _ => True
     end.
+  Definition f13_free : qgate -> Prop := f13_free_at defect_F13.
 End ZX.
 
 Arguments SPow2h {_}. Arguments SImag {_}. Arguments SData {_}.
@@ -403,12 +439,12 @@ Arguments zdagger {_ _}. Arguments zcod {_ _}. Arguments zwf {_ _}. Arguments ed
 Arguments qdom {_ _}. Arguments qcod {_ _}. Arguments qwf {_ _}. Arguments qcod0 {_ _}.
 Arguments spider {_ _}. Arguments escalar {_ _}. Arguments tensor_all {_ _}. Arguments ketbra_exp {_ _}.
 Arguments crz_exp {_ _}. Arguments crx_exp {_ _}. Arguments cu1_exp {_ _}. Arguments y_exp {_ _}.
-Arguments cz_exp {_ _}. Arguments cx_exp {_ _}. Arguments gate2zx {_ _}. Arguments c2z_box {_ _}.
-Arguments c2z_loop {_ _}. Arguments circuit2zx {_ _}. Arguments qgate_box {_ _}. Arguments supported {_ _}.
+Arguments cz_exp {_ _}. Arguments cx_exp {_ _}. Arguments crx_fixed_exp {_ _}. Arguments gate2zx_at {_ _}. Arguments gate2zx {_ _}. Arguments c2z_box_at {_ _}. Arguments c2z_box {_ _}.
+Arguments c2z_loop {_ _}. Arguments circuit2zx_at {_ _}. Arguments circuit2zx {_ _}. Arguments qgate_box {_ _}. Arguments supported {_ _}.
 Arguments qcirc_circuit {_ _}. Arguments sgn {_}. Arguments ipow {_}. Arguments z_sp {_}. Arguments x_sp {_}.
 Arguments y_sp {_}. Arguments had_mat {_}. Arguments hadn {_}. Arguments ybasis_mat {_}. Arguments ybasisn {_}.
 Arguments zscal_sem {_}. Arguments spider_sem {_}. Arguments zbox_sem {_ _}. Arguments zx_sem {_ _}.
 Arguments zx_sem_spec {_ _}. Arguments zx_sem_flat {_ _}. Arguments edom {_ _}. Arguments ecod {_ _}.
 Arguments ewt {_ _}. Arguments esem {_ _}. Arguments gate_lam {_ _}. Arguments circ_lam {_ _}.
-Arguments f13_free {_ _}.
+Arguments f13_free_at {_ _}. Arguments f13_free {_ _}.
 Arguments zbox {_} _. Arguments zexp {_} _. Arguments qgate {_} _. Arguments zxd {_} _. Arguments qcirc {_} _.
